@@ -44,7 +44,8 @@ def check_run(scn, run, drv, res, *, monitors_on=(), corr=("sim", "ticker"), cas
         n += 1
     reqs = []
     if "sim" in corr:
-        reqs.append(model.sim_request(scn, run["trace"], n_ticks=max(0, len([e for e in run["trace"].of("t-done") if e["tid"] == monitors.master_tid(run)]) - 1)))
+        reqs.append(model.sim_request(scn, run["trace"], n_ticks=max(0, len([e for e in run["trace"].of("t-done") if e["tid"] == monitors.master_tid(run)]) - 1),
+                                      extra={"start_real": run["info"]["start_real"]}))
     treqs, texp = [], []
     if "ticker" in corr:
         treqs, texp, _ = model.ticker_requests(run["trace"])
